@@ -8,7 +8,7 @@ use crate::run::{Obs, Prop, RunCfg, Verdict, Worker};
 
 fn gen(r: &mut Rng, _cfg: &RunCfg) -> Case {
     let text = gen_text(r, TextDomain::Clean);
-    let dw = textwrap::core::display_width(&text);
+    let dw = crate::oracle::width::ref_width(&text);
     let mut o = OptSpec::new(opts::small_width(r, text.len(), dw));
     o.bw = r.coin();
     o.crlf = r.chance(1, 3);
